@@ -514,64 +514,79 @@ func (x *c19Exec) issue(s stub.Stub, plugin, kind, where string, call C19Call, n
 	}
 }
 
-// runC19 executes the plan. Verdicts that hinge on time (a watchdog tripped, or a call made
-// while Start() was in progress failed, which on a healthy tree can only happen when the
-// stub's own 5 s start timer fires first) are confirmed by re-executing the case: a
-// violation only if it fails three times in a row, otherwise the case counts as overloaded.
+// runC19 executes the plan. Verdicts that hinge on time are confirmed by re-executing the
+// same case: a tripped 10 s watchdog is a violation only if it trips in three executions in
+// a row; a call made while Start() was in progress (from the Configure handler, or beside
+// it) that was not delivered is a violation only if that happens twice in a row — on a
+// healthy tree it takes the stub's own 5 s start timer firing during a millisecond
+// operation. If a re-execution passes, the case counts as overloaded.
 func runC19(c C19Case) ev.Outcome {
 	var o ev.Outcome
-	for attempt := 0; attempt < 3; attempt++ {
-		var timeClause bool
-		o, timeClause = runC19Once(c)
-		if o.Fail == "" || !timeClause {
-			if attempt > 0 && o.Fail == "" {
+	for attempt := 1; ; attempt++ {
+		var need int
+		o, need = runC19Once(c)
+		if o.Fail == "" {
+			if attempt > 1 {
 				return ev.Outcome{Overloaded: true, Classes: []string{"time-clause-not-confirmed"}, History: o.History}
 			}
 			return o
 		}
+		if attempt >= need {
+			return o
+		}
 	}
-	return o
 }
 
-func runC19Once(c C19Case) (ev.Outcome, bool) {
+func runC19Once(c C19Case) (ev.Outcome, int) {
 	if len(c.Plugins) == 0 || len(c.Plugins) > 8 {
-		return ev.Outcome{Excluded: "plugin-count-out-of-domain"}, false
+		return ev.Outcome{Excluded: "plugin-count-out-of-domain"}, 1
 	}
 	var earlyIdx []int
 	for i, p := range c.Plugins {
 		if !validIdx(p.Idx) {
-			return ev.Outcome{Excluded: "invalid-index"}, false
+			return ev.Outcome{Excluded: "invalid-index"}, 1
 		}
 		if !p.Late {
 			earlyIdx = append(earlyIdx, i)
 		}
 	}
 	if len(earlyIdx) == 0 {
-		return ev.Outcome{Excluded: "no-plugin-registered-up-front"}, false
+		return ev.Outcome{Excluded: "no-plugin-registered-up-front"}, 1
 	}
 	rt, err := fx.NewRuntime()
 	if err != nil {
-		return ev.Outcome{Overloaded: true, Classes: []string{"infra:" + shortErr(err)}}, false
+		return ev.Outcome{Overloaded: true, Classes: []string{"infra:" + shortErr(err)}}, 1
 	}
 	x := &c19Exec{c: c, rt: rt, no: c19CaseCtr.Add(1), plans: map[string]C19Call{}}
 	rt.UpdateFn = x.updateFn
 
 	live := make([]*c19Live, len(c.Plugins))
 	// phase 1: the plugins that register up front, one after the other
+	// (a registration that fails ends the execution early: the verdict is a violation found
+	// by the oracle below or "infrastructure", and nothing later could change that)
+	broken := false
 	for _, i := range earlyIdx {
 		live[i] = x.connect(i, c.Plugins[i])
+		if !live[i].ok {
+			broken = true
+			break
+		}
 	}
 	// the never-started stub
 	idle, _, _ := x.newPlugin(len(c.Plugins), C19Plugin{Idx: "50"})
 	if err := idle.p.NewStub(rt.Socket, nil); err != nil {
 		rt.Stop()
-		return ev.Outcome{Overloaded: true, Classes: []string{"infra:" + shortErr(err)}}, false
+		return ev.Outcome{Overloaded: true, Classes: []string{"infra:" + shortErr(err)}}, 1
 	}
 
 	// phase 2: updaters, runtime callers, the unstarted stub and late registrations together
 	start := make(chan struct{})
 	var wg sync.WaitGroup
-	for ui, u := range c.Updaters {
+	updaters, callers, unstarted := c.Updaters, c.Callers, c.Unstarted
+	if broken {
+		updaters, callers, unstarted = nil, nil, nil
+	}
+	for ui, u := range updaters {
 		wg.Add(1)
 		go func(ui int, u C19Updater) {
 			defer wg.Done()
@@ -581,15 +596,12 @@ func runC19Once(c C19Case) (ev.Outcome, bool) {
 				pi = -pi
 			}
 			l := live[earlyIdx[pi%len(earlyIdx)]]
-			if !l.ok {
-				return
-			}
 			for ci, call := range u.Calls {
 				x.issue(l.p.Stub, l.p.Name, kUpdater, fmt.Sprintf("u%dc%d", ui, ci), call, (ui+ci)%2 == 0)
 			}
 		}(ui, u)
 	}
-	for ci, evs := range c.Callers {
+	for ci, evs := range callers {
 		wg.Add(1)
 		go func(ci int, evs []int32) {
 			defer wg.Done()
@@ -609,12 +621,12 @@ func runC19Once(c C19Case) (ev.Outcome, bool) {
 			}
 		}(ci, evs)
 	}
-	if len(c.Unstarted) > 0 {
+	if len(unstarted) > 0 {
 		wg.Add(1)
 		go func() {
 			defer wg.Done()
 			<-start
-			for ci, call := range c.Unstarted {
+			for ci, call := range unstarted {
 				x.issue(idle.p.Stub, idle.p.Name, kUnstarted, fmt.Sprintf("n%d", ci), call, ci%2 == 0)
 			}
 		}()
@@ -624,8 +636,11 @@ func runC19Once(c C19Case) (ev.Outcome, bool) {
 		defer wg.Done()
 		<-start
 		for i, p := range c.Plugins {
-			if p.Late {
+			if p.Late && !broken {
 				live[i] = x.connect(i, p)
+				if !live[i].ok {
+					return
+				}
 			}
 		}
 	}()
@@ -637,12 +652,17 @@ func runC19Once(c C19Case) (ev.Outcome, bool) {
 	case <-time.After(120 * time.Second):
 		// not a clause of this property (the calls that must not block have their own
 		// watchdogs): inconclusive. The goroutines are abandoned.
-		return ev.Outcome{Overloaded: true, Classes: []string{"watchdog"}}, false
+		return ev.Outcome{Overloaded: true, Classes: []string{"watchdog"}}, 1
 	}
 
 	// phase 3: nothing else is in flight any more; updates racing Stop() and after Stop()
+	for _, l := range live {
+		if l != nil && !l.ok {
+			broken = true
+		}
+	}
 	for i, l := range live {
-		if l == nil || !l.ok {
+		if l == nil || broken {
 			continue
 		}
 		if call := l.spec.RaceStop; call != nil {
@@ -754,18 +774,23 @@ func c19Strict(is *c19Issued, ss []c19Seen, classes map[string]bool) string {
 	return ""
 }
 
-// judgeC19 returns the outcome and whether a failure hinges on time (to be confirmed by
-// re-execution).
-func judgeC19(c C19Case, h *c19Hist) (ev.Outcome, bool) {
-	fail := func(timeClause bool, format string, a ...any) (ev.Outcome, bool) {
+// judgeC19 returns the outcome and, for a failure, how many executions in a row must fail
+// before it is reported (1 = at once; see runC19).
+func judgeC19(c C19Case, h *c19Hist) (ev.Outcome, int) {
+	const (
+		atOnce   = 1
+		starting = 2 // depends on the stub's start timer not firing
+		watchdog = 3
+	)
+	fail := func(need int, format string, a ...any) (ev.Outcome, int) {
 		o := ev.Failf(format, a...)
 		o.History = h
-		return o, timeClause
+		return o, need
 	}
 	classes := map[string]bool{}
 	// (3) mutual exclusion
 	if len(h.Overlaps) > 0 {
-		return fail(false, "%s", h.Overlaps[0])
+		return fail(atOnce, "%s", h.Overlaps[0])
 	}
 	seenByTag := map[string][]c19Seen{}
 	emptySeen := 0
@@ -783,10 +808,10 @@ func judgeC19(c C19Case, h *c19Hist) (ev.Outcome, bool) {
 			issuedTags[is.Tag] = true
 		}
 		if is.Panic != "" {
-			return fail(false, "UpdateContainers (call %s, issued %s) panicked: %s", is.Where, c19KindText[is.Kind], is.Panic)
+			return fail(atOnce, "UpdateContainers (call %s, issued %s) panicked: %s", is.Where, c19KindText[is.Kind], is.Panic)
 		}
 		if is.Blocked {
-			return fail(true, "UpdateContainers (call %s, plugin %s) issued %s did not return within 10 s", is.Where, is.Plugin, c19KindText[is.Kind])
+			return fail(watchdog, "UpdateContainers (call %s, plugin %s) issued %s did not return within 10 s", is.Where, is.Plugin, c19KindText[is.Kind])
 		}
 		ss := seenByTag[is.Tag]
 		switch is.Kind {
@@ -794,13 +819,13 @@ func judgeC19(c C19Case, h *c19Hist) (ev.Outcome, bool) {
 			// (4) no service instead of blocking
 			classes["unstarted-stub"] = true
 			if !is.NoService {
-				return fail(false, "UpdateContainers on a never-started stub returned (%v, %q) instead of stub.ErrNoService", is.FailedIDs, is.Err)
+				return fail(atOnce, "UpdateContainers on a never-started stub returned (%v, %q) instead of stub.ErrNoService", is.FailedIDs, is.Err)
 			}
 			if len(is.failed) != 0 {
-				return fail(false, "UpdateContainers on a never-started stub returned a failed list %v", is.FailedIDs)
+				return fail(atOnce, "UpdateContainers on a never-started stub returned a failed list %v", is.FailedIDs)
 			}
 			if is.Tag != "" && len(ss) > 0 {
-				return fail(false, "an update sent on a never-started stub reached the runtime's UpdateFn (%s)", is.Tag)
+				return fail(atOnce, "an update sent on a never-started stub reached the runtime's UpdateFn (%s)", is.Tag)
 			}
 			continue
 		case kRaceStop, kAfterStop:
@@ -808,13 +833,13 @@ func judgeC19(c C19Case, h *c19Hist) (ev.Outcome, bool) {
 			// have been delivered or not, but not twice, and a success must be a real one
 			classes[is.Kind] = true
 			if len(ss) > 1 {
-				return fail(false, "update call %s issued %s reached the runtime's UpdateFn %d times", is.Tag, c19KindText[is.Kind], len(ss))
+				return fail(atOnce, "update call %s issued %s reached the runtime's UpdateFn %d times", is.Tag, c19KindText[is.Kind], len(ss))
 			}
 			switch {
 			case is.err == nil:
 				classes[is.Kind+":delivered"] = true
 				if msg := c19Strict(is, ss, classes); msg != "" {
-					return fail(false, "%s", msg)
+					return fail(atOnce, "%s", msg)
 				}
 			case is.NoService:
 				classes[is.Kind+":no-service"] = true
@@ -828,7 +853,7 @@ func judgeC19(c C19Case, h *c19Hist) (ev.Outcome, bool) {
 			if is.NoService {
 				classes["during-start:no-service"] = true
 				if len(ss) > 0 || len(is.failed) != 0 {
-					return fail(false, "update call %s issued %s returned ErrNoService but reached UpdateFn %d times (failed list %v)", is.Tag, c19KindText[is.Kind], len(ss), is.FailedIDs)
+					return fail(atOnce, "update call %s issued %s returned ErrNoService but reached UpdateFn %d times (failed list %v)", is.Tag, c19KindText[is.Kind], len(ss), is.FailedIDs)
 				}
 				continue
 			}
@@ -839,7 +864,10 @@ func judgeC19(c C19Case, h *c19Hist) (ev.Outcome, bool) {
 			classes["in-synchronize"] = true
 		}
 		// a registered plugin's update: delivered exactly once, answered unchanged
-		timeClause := is.Kind == kConfigure || is.Kind == kStarting
+		timeClause := atOnce
+		if is.Kind == kConfigure || is.Kind == kStarting {
+			timeClause = starting
+		}
 		if is.N == 0 {
 			// untagged: judged by count below, and by the case-wide answer
 			emptyIssued++
@@ -866,17 +894,17 @@ func judgeC19(c C19Case, h *c19Hist) (ev.Outcome, bool) {
 	}
 	for tag, ss := range seenByTag {
 		if !issuedTags[tag] {
-			return fail(false, "the runtime's UpdateFn was called with updates nobody sent (first container id %q)", ss[0].IDs[0])
+			return fail(atOnce, "the runtime's UpdateFn was called with updates nobody sent (first container id %q)", ss[0].IDs[0])
 		}
 	}
 	if emptySeen != emptyIssued {
-		return fail(false, "%d empty update lists were sent, UpdateFn was called %d times with an empty list", emptyIssued, emptySeen)
+		return fail(atOnce, "%d empty update lists were sent, UpdateFn was called %d times with an empty list", emptyIssued, emptySeen)
 	}
 	// every registration of this property is well-formed; one that did not complete although
 	// no clause above was violated is not this property's finding
 	for _, p := range h.Plugins {
 		if p.StartErr != "" || p.Refused || p.TimedOut {
-			return ev.Outcome{Overloaded: true, History: h, Classes: []string{"infra:registration-failed"}}, false
+			return ev.Outcome{Overloaded: true, History: h, Classes: []string{"infra:registration-failed"}}, 1
 		}
 		if p.Late {
 			classes["late-registration"] = true
@@ -928,7 +956,7 @@ func judgeC19(c C19Case, h *c19Hist) (ev.Outcome, bool) {
 	}
 	sort.Strings(ks)
 	out.Classes = append(out.Classes, ks...)
-	return out, false
+	return out, 1
 }
 
 func TestProp_C19(t *testing.T) { ev.Run(t, "C19", genC19, runC19) }
